@@ -10,6 +10,7 @@ from typing import Dict, List, Set
 import numpy as np
 from hypothesis import strategies as st
 
+from vf import fuel
 from vf.core import Cell, Ctx, Violation
 from vf.refmodel import HEX_EDGES, HEX_SIDES, hex_rotations, rodrigues
 
@@ -157,6 +158,24 @@ def split_iterations(n: int, history) -> List[int]:
 
 
 @st.composite
+def _then(draw, npoints: int):
+    """an optional second stage on the same smoother: more points are fixed where they are now, then n more sweeps"""
+    if draw(st.integers(0, 2)) > 0:
+        return None
+    return {"fixed": draw(st.lists(st.integers(0, npoints - 1), max_size=2, unique=True)),
+            "fixed_inner": draw(st.lists(st.integers(0, 63), min_size=1, max_size=2, unique=True)),
+            "mode": draw(st.sampled_from(MODES)), "n": draw(st.one_of(st.integers(1, 3), st.integers(1, 200)))}
+
+
+@st.composite
+def _init(draw, regular: bool = False):
+    """where the interior points start: jittered, all at one spot (placeholders, as in examples/shape/custom.py),
+    or one of them exactly on a neighbour"""
+    kind = draw(st.sampled_from(["jitter", "jitter", "collapsed"] if regular else ["jitter", "jitter", "collapsed", "pair"]))
+    return {"init": kind, "pair": [draw(st.integers(0, 63)), draw(st.integers(0, 7))]}
+
+
+@st.composite
 def _tilt(draw):
     if draw(st.booleans()):
         return None
@@ -183,10 +202,10 @@ def _fixing(draw, npoints: int):
 MODES = ["index", "position", "both", "position-array", "both-reversed"]
 
 
-def resolve_calls(case, interior: List[int], modulo=None) -> List[list]:
-    """the sequence of fixing calls as [mode, point ids]"""
+def resolve_calls(case, interior: List[int], modulo=None, stage: int = 1) -> List[list]:
+    """the sequence of fixing calls of a stage as [mode, point ids]"""
     out = []
-    for call in [case, *case.get("more", [])]:
+    for call in ([case, *case.get("more", [])] if stage == 1 else [case["then"]] if case.get("then") else []):
         ids = call["fixed"] if modulo is None else sorted({f % modulo for f in call["fixed"]})
         out.append([call["mode"], resolve_fixed(ids, call.get("fixed_inner", []), interior)])
     return out
@@ -227,11 +246,14 @@ def grid_case(draw, regular: bool = False):
         "tilt": draw(_tilt()), "drop": 0 if regular else draw(st.sampled_from([0, 0, 1, 2])),
         "place": draw(_place()),
     }
+    case.update(draw(_init(regular)))
     case.update(draw(_fixing(npts)))
     case["n"] = 200 if regular else draw(_iters)
     if regular:
         case["regular"] = True
         case["more"] = []
+    else:
+        case["then"] = draw(_then(npts))
     return case
 
 
@@ -251,7 +273,7 @@ def unstructured_case(draw):
         "qperm": draw(st.one_of(st.none(), st.permutations(list(range(len(quads)))))),
         "pperm": draw(st.one_of(st.none(), st.permutations(list(range(npts))))),
         "tilt": draw(_tilt()), "drop": draw(st.sampled_from([0, 0, 0, 1, 2])), "n": draw(_iters),
-        "place": draw(_place()),
+        "place": draw(_place()), "then": draw(_then(npts)), **draw(_init()),
     }
 
 
@@ -285,6 +307,8 @@ def mesh_case(draw, regular: bool = False):
         case["more"] = []
         if ninner == 1:
             case["fixed_inner"] = []  # keep the only interior point free
+    else:
+        case["then"] = draw(_then(nn))
     return case
 
 
@@ -372,20 +396,31 @@ def sketch_input(case):
     calls = resolve_calls(case, topo.interior, len(order))
     fixed = union(calls)
     lattice = np.column_stack([pts, np.zeros(len(pts))])
+    pts = pts.copy()
+    # in 'regular' cases the fixed points stay on the lattice
+    keep = {p for p in full.interior if case.get("regular") and lib.get(p) in fixed}
     if case["amp"] and case["jit"]:
         jit = np.array(case["jit"]).reshape(-1, 2)
-        pts = pts.copy()
         for k, p in enumerate(full.interior):
-            # in 'regular' cases the fixed points stay on the lattice
-            if not (case.get("regular") and lib.get(p) in fixed):
+            if p not in keep:
                 pts[p] += case["amp"] * space[p] * jit[k]
+    init = case.get("init", "jitter")
+    if init == "collapsed":
+        spot = lattice[:, :2].mean(axis=0)
+        for p in full.interior:
+            if p not in keep:
+                pts[p] = spot
+    elif init == "pair" and full.interior:
+        p = full.interior[case["pair"][0] % len(full.interior)]
+        nb = sorted(full.nbrs[p])
+        pts[p] = pts[nb[case["pair"][1] % len(nb)]]
     p3 = np.column_stack([pts, np.zeros(len(pts))])
     if case["tilt"]:
         R = rodrigues(case["tilt"]["axis"], case["tilt"]["angle"])
         p3, lattice = p3 @ R.T, lattice @ R.T
     off = placement(case, float(min(space.values())))
     p3, lattice = p3 + off, lattice + off
-    return np.array(p3[order]), quads, lattice[order], calls
+    return np.array(p3[order]), quads, lattice[order], [calls, resolve_calls(case, topo.interior, len(order), stage=2)]
 
 
 def mesh_input(case):
@@ -426,18 +461,36 @@ def mesh_input(case):
         perm = ROT[case["rots"][c]]
         cells.append([nodes[perm[m]] for m in range(8)])
     off = placement(case, float(min(min(w) for w in case["widths"])))
-    return pos + off, cells, lattice + off, calls
+    return pos + off, cells, lattice + off, [calls, resolve_calls(case, inner, stage=2)]
 
 
 # --------------------------------------------------------------------------------------------------
 # running the library
 
 
-def _fix(smoother, calls, initial_lib, to_lib=None):
-    """replays the drawn sequence of fix_indexes / fix_points calls"""
+class Stalled(Exception):
+    """the library spent more than the call budget in smooth(): inconclusive, never a verdict"""
+
+
+def smooth(smoother, count: int, budget: int) -> None:
+    try:
+        fuel.run(lambda: smoother.smooth(count), budget)
+    except fuel.OutOfFuel:
+        raise Stalled() from None
+
+
+def call_budget(topo: Topo, n: int) -> int:
+    """library calls allowed for smooth(n): 4 x (sweeps x (valence + 3) per interior point + copy-back); the unchanged
+    library uses at most 0.15 of this (measured over 200 cases per cell)"""
+    per_sweep = sum(len(topo.nbrs[p]) + 3 for p in topo.interior)
+    return 4 * (n * per_sweep + 60 * len(topo.cells) + 200)
+
+
+def _fix(smoother, calls, positions_lib, to_lib=None):
+    """replays a drawn sequence of fix_indexes / fix_points calls (positions as the user reads them at that moment)"""
     for mode, ids in calls:
         ids = list(ids) if to_lib is None else [to_lib[p] for p in ids if p in to_lib]
-        by_position = [initial_lib[i].tolist() for i in ids]
+        by_position = [positions_lib[i].tolist() for i in ids]
         if mode in ("index", "both"):
             smoother.fix_indexes(list(ids))
         if mode in ("position", "both", "both-reversed"):
@@ -448,25 +501,34 @@ def _fix(smoother, calls, initial_lib, to_lib=None):
             smoother.fix_points(np.array(by_position).reshape(-1, 3))
 
 
-def run_sketch(case, points, quads, fixed, n, facts):
-    """fresh sketch, n sweeps -> (positions seen through sketch.positions, sketch, smoother)"""
+def run_sketch(case, points, quads, stages, n, facts, topo, n2=None):
+    """fresh sketch; stage 1: fix, n sweeps; optional stage 2: fix at the current place, n2 sweeps.
+    -> (final sketch.positions, sketch, smoother, positions between the stages)"""
     try:
         if case["kind"] in DISKS:
             sketch = make_disk(case)
         else:
             sketch = MappedSketch([p.tolist() for p in points], [list(q) for q in quads])
         smoother = SketchSmoother(sketch)
-        _fix(smoother, fixed, points)
+        _fix(smoother, stages[0], points)
         if n > 0:
-            smoother.smooth(n)
-        return np.array(sketch.positions, dtype=float), sketch, smoother
+            smooth(smoother, n, call_budget(topo, n))
+        between = np.array(sketch.positions, dtype=float)
+        if n2 is not None:
+            _fix(smoother, stages[1], between)
+            if n2 > 0:
+                smooth(smoother, n2, call_budget(topo, n2))
+        return np.array(sketch.positions, dtype=float), sketch, smoother, between
+    except Stalled:
+        raise
     except Exception as ex:
         raise Violation("smoothing-raises", f"{type(ex).__name__}: {ex}", **facts) from None
 
 
-def run_mesh(case, pos, cells, fixed, n, facts, history=None):
-    """fresh mesh, n sweeps (spread over the calls of `history` on one smoother) ->
-    (positions per node id as found in mesh.vertices after the last call, mesh, smoother, node -> vertex index)"""
+def run_mesh(case, pos, cells, stages, n, facts, topo, history=None, n2=None):
+    """fresh mesh; stage 1: fix, n sweeps spread over the calls of `history` on one smoother; optional stage 2: fix at
+    the current place, n2 sweeps -> (positions per node id as found in mesh.vertices after the last call, mesh,
+    smoother, node -> vertex index, positions between the stages)"""
     try:
         mesh = cb.Mesh()
         for c in cells:
@@ -485,24 +547,35 @@ def run_mesh(case, pos, cells, fixed, n, facts, history=None):
         node_to_vertex[p] = v
     if len(set(node_to_vertex.values())) != len(used) or len(vpos) != len(used):
         return None
+
+    def in_nodes(vertex_positions):
+        out = pos.copy()
+        for p, v in node_to_vertex.items():
+            out[p] = vertex_positions[v]
+        return out
+
     try:
         smoother = MeshSmoother(mesh)
-        _fix(smoother, fixed, vpos, node_to_vertex)
+        _fix(smoother, stages[0], vpos, node_to_vertex)
         parts = split_iterations(n, history)
         for i, count in enumerate(parts):
             if count > 0 or len(parts) > 1:
-                smoother.smooth(count)
+                smooth(smoother, count, call_budget(topo, count))
             if i < len(parts) - 1 and history["ops"][i] == "backport":
                 mesh.backport()  # pushes the vertices to the operations and re-assembles the mesh
+        between = np.array([v.position for v in mesh.vertices], dtype=float)
+        if n2 is not None and len(between) == len(vpos):
+            _fix(smoother, stages[1], between, node_to_vertex)
+            if n2 > 0:
+                smooth(smoother, n2, call_budget(topo, n2))
         after = np.array([v.position for v in mesh.vertices], dtype=float)
-        if len(after) != len(vpos):
-            raise Violation("vertex-count-changed", f"{len(vpos)} vertices before, {len(after)} after the history", **facts)
+    except Stalled:
+        raise
     except Exception as ex:
         raise Violation("smoothing-raises", f"{type(ex).__name__}: {ex}", **facts) from None
-    out = pos.copy()
-    for p, v in node_to_vertex.items():
-        out[p] = after[v]
-    return out, mesh, smoother, node_to_vertex
+    if len(after) != len(vpos) or len(between) != len(vpos):
+        raise Violation("vertex-count-changed", f"{len(vpos)} vertices before, {len(after)} after the history", **facts)
+    return in_nodes(after), mesh, smoother, node_to_vertex, in_nodes(between)
 
 
 # --------------------------------------------------------------------------------------------------
@@ -570,22 +643,63 @@ def needed_iterations(free, topo) -> int:
     return max(1, math.ceil(math.log(1e-13) / math.log(rho)))
 
 
-def common(case, topo: Topo, calls, initial, after, before, size, extent, lattice, ctx: Ctx, facts):
-    fixed = {p for p in union(calls) if topo.nbrs.get(p)}
-    facts["calls"] = "+".join(mode for mode, _ in calls)
+LIB_TOL = 1e-7  # classy_blocks.util.constants.TOL: fix_points pins every grid point closer than this
+
+
+def effective_fixed(calls, positions: np.ndarray, topo: Topo):
+    """points the user fixed: the listed ones, and for calls by position every point at (within TOL of) that place.
+    None when a point sits so close to TOL from a given place that rounding decides"""
+    out: Set[int] = set()
+    for mode, ids in calls:
+        ids = [p for p in ids if topo.nbrs.get(p)]
+        out |= set(ids)
+        if mode == "index":
+            continue
+        for i in ids:
+            d = np.linalg.norm(positions - positions[i], axis=1)
+            if np.any((d > 0.9 * LIB_TOL) & (d < 1.1 * LIB_TOL)):
+                return None
+            out |= {int(p) for p in np.nonzero(d < LIB_TOL)[0] if topo.nbrs.get(int(p))}
+    return out
+
+
+def common(case, topo: Topo, stages, initial, between, after, before, size, extent, lattice, ctx: Ctx, facts):
+    """stages = [fixing calls before the first smoothing, fixing calls of the optional second stage];
+    between = positions when the second stage's points were fixed; before/after = around the last sweep"""
+    staged = bool(case.get("then"))
+    fixed1 = effective_fixed(stages[0], initial, topo)
+    fixed2 = effective_fixed(stages[1], between, topo) if staged else set()
+    if fixed1 is None or fixed2 is None:
+        ctx.label("point-at-TOL-from-a-fixed-place(not judged)")
+        return
+    fixed = fixed1 | fixed2
+    facts["calls"] = "+".join(mode for mode, _ in stages[0]) + ("|" + stages[1][0][0] if staged else "")
     free = [p for p in topo.interior if p not in fixed]
-    check_static(initial, after, topo, fixed, facts)
+    # where every static point has to be: boundary and first-stage points where they started, second-stage points
+    # where they were when the user fixed them
+    held = initial.copy()
+    for p in fixed2 - fixed1 - topo.boundary:
+        held[p] = between[p]
+    if staged:
+        check_static(initial, between, topo, fixed1, {**facts, "stage": 1})
+    check_static(held, after, topo, fixed, facts)
     check_sweep(before, after, topo, free, extent, facts)
-    n = case["n"]
+    n = case["then"]["n"] if staged else case["n"]
     need = needed_iterations(free, topo)
     # far from the origin the rounding of a coordinate (not the cell size) limits what a fix point can reach
     size = size + 1e-3 * extent
     if n >= need:
-        check_fixpoint(initial, after, topo, free, size, facts)
+        check_fixpoint(held, after, topo, free, size, facts)
         ctx.label("fixpoint-asserted")
         if case.get("regular"):
-            used = sorted(p for p in topo.nbrs if topo.nbrs[p])
-            check_regular(after, lattice, used, size, facts)
+            # the lattice is the solution only if every point that is held sits on the lattice (a point fixed by
+            # position also holds the placeholders that start at the same spot)
+            if all(np.linalg.norm(initial[p] - lattice[p]) <= 1e-12 * extent for p in fixed - topo.boundary):
+                used = sorted(p for p in topo.nbrs if topo.nbrs[p])
+                check_regular(after, lattice, used, size, facts)
+                ctx.label("regular-lattice-asserted")
+            else:
+                ctx.label("held-point-off-the-lattice(lattice not asserted)")
     else:
         ctx.label("fixpoint-not-asserted(few iterations)")
     static = topo.boundary | fixed
@@ -597,10 +711,16 @@ def common(case, topo: Topo, calls, initial, after, before, size, extent, lattic
         ctx.label("irregular-valence")
     if fixed - topo.boundary:
         ctx.label("fixed-interior:" + case["mode"])
-    inner_sets = [set(ids) - topo.boundary for _, ids in calls]
-    ctx.label(f"fixing-calls={len(calls)}")
-    if any(inner_sets[i] - inner_sets[j] for j in range(len(calls)) for i in range(j)):
+    inner_sets = [set(ids) - topo.boundary for _, ids in stages[0]]
+    ctx.label(f"fixing-calls={len(stages[0])}")
+    if any(inner_sets[i] - inner_sets[j] for j in range(len(inner_sets)) for i in range(j)):
         ctx.label("later-call-omits-earlier-interior-point")
+    if staged:
+        ctx.label("second-stage")
+        newly = fixed2 - fixed1 - topo.boundary
+        if newly and case["n"] > 0 and any(not np.array_equal(initial[p], between[p]) for p in newly):
+            ctx.label("second-stage-fixes-a-moved-interior-point:" + stages[1][0][0])
+    ctx.label("start=" + case.get("init", "jitter"))
     moved = [p for p in free if not np.array_equal(initial[p], after[p])]
     ctx.label("some-point-moved" if moved else "nothing-moved")
     ratio = (case.get("place") or {}).get("ratio", 0.0)
@@ -632,7 +752,7 @@ def disk_case(draw):
     case = {
         "kind": draw(st.sampled_from(DISKS)), "radius": 10.0 ** draw(st.floats(-1.0, 1.0)),
         "center": [draw(st.floats(-10.0, 10.0)) for _ in range(3)], "tilt": draw(_tilt()), "n": draw(_iters),
-        "place": draw(_place()),
+        "place": draw(_place()), "then": draw(_then(22)),
     }
     case.update(draw(_fixing(22)))
     return case
@@ -643,7 +763,8 @@ def disk_input(case):
     points = np.array(sketch.positions, dtype=float)
     quads = [[int(i) for i in q] for q in sketch.indexes]
     topo = Topo(quads, len(points))
-    return points, quads, points.copy(), resolve_calls(case, topo.interior, len(points))
+    return points, quads, points.copy(), [resolve_calls(case, topo.interior, len(points)),
+                                           resolve_calls(case, topo.interior, len(points), stage=2)]
 
 
 def check_sketch(case, ctx: Ctx) -> None:
@@ -657,8 +778,16 @@ def check_sketch(case, ctx: Ctx) -> None:
     topo = Topo(quads, len(points))
     n = case["n"]
     facts = {"map": case["kind"], "n": n, "mode": case["mode"], "quads": len(quads)}
-    after, sketch, smoother = run_sketch(case, points, quads, fixed, n, facts)
-    before = points if n == 1 else run_sketch(case, points, quads, fixed, n - 1, facts)[0]
+    n2 = case["then"]["n"] if case.get("then") else None
+    try:
+        after, sketch, smoother, between = run_sketch(case, points, quads, fixed, n, facts, topo, n2)
+        if n2 is None:
+            before = points if n == 1 else run_sketch(case, points, quads, fixed, n - 1, facts, topo)[0]
+        else:
+            before = between if n2 == 1 else run_sketch(case, points, quads, fixed, n, facts, topo, n2 - 1)[0]
+    except Stalled:
+        ctx.label("out-of-fuel(inconclusive)")
+        return
     if after.shape != points.shape:
         raise Violation("positions-shape", f"sketch.positions has shape {after.shape}", **facts)
     # copy-back: every face holds, at each of its corners, the coordinates of that point
@@ -672,7 +801,7 @@ def check_sketch(case, ctx: Ctx) -> None:
                                 f"smoother {grid_points[p].tolist()}", face=f, corner=k, point=p, **facts)
     size = float(np.mean([np.linalg.norm(points[q[1]] - points[q[0]]) for q in quads]))
     extent = float(np.abs(points).max()) + size
-    common(case, topo, fixed, points, after, before, size, extent, lattice, ctx, facts)
+    common(case, topo, fixed, points, between, after, before, size, extent, lattice, ctx, facts)
     ctx.label("tilted" if case["tilt"] else "xy-plane", f"dropped={case.get('drop', 0)}")
     if case["kind"] in DISKS:
         ctx.label(case["kind"])
@@ -686,12 +815,22 @@ def check_mesh(case, ctx: Ctx) -> None:
     history = case.get("history")
     facts["calls_to_smooth"] = split_iterations(n, history)
     facts["between"] = history["ops"] if history else []
-    result = run_mesh(case, pos, cells, fixed, n, facts, history)
-    earlier = (pos,) if n == 1 else run_mesh(case, pos, cells, fixed, n - 1, facts)
+    n2 = case["then"]["n"] if case.get("then") else None
+    try:
+        result = run_mesh(case, pos, cells, fixed, n, facts, topo, history, n2)
+        if result is None:
+            earlier = None
+        elif n2 is None:
+            earlier = (pos,) if n == 1 else run_mesh(case, pos, cells, fixed, n - 1, facts, topo)
+        else:
+            earlier = (result[4],) if n2 == 1 else run_mesh(case, pos, cells, fixed, n, facts, topo, history, n2 - 1)
+    except Stalled:
+        ctx.label("out-of-fuel(inconclusive)")
+        return
     if result is None or earlier is None:
         ctx.label("mesh-vertices-not-one-per-node(not judged)")
         return
-    after, mesh, smoother, node_to_vertex = result
+    after, mesh, smoother, node_to_vertex, between = result
     before = earlier[0]
     # copy-back: mesh vertices = smoother's points; every block corner refers to the moved vertex
     grid_points = np.array(smoother.grid.points, dtype=float)
@@ -706,7 +845,7 @@ def check_mesh(case, ctx: Ctx) -> None:
                                 block=b, corner=k, **facts)
     size = float(min(min(w) for w in case["widths"]))
     extent = float(np.abs(pos).max()) + size
-    common(case, topo, fixed, pos, after, before, size, extent, lattice, ctx, facts)
+    common(case, topo, fixed, pos, between, after, before, size, extent, lattice, ctx, facts)
     ctx.label(f"dims={'x'.join(map(str, case['dims']))}", f"dropped={case['drop']}")
     ctx.label(f"smooth-calls={len(facts['calls_to_smooth'])}")
     if "backport" in facts["between"]:
